@@ -350,10 +350,11 @@ def validate(t4):
         for c in t4.compositions:
             for nm, val in c['isotopes']:
                 try:
-                    if not PH.match(val) and not math.isfinite(float(val)):
+                    if not PH.match(val) and not math.isfinite(float(val.lower().replace('d', 'e'))):
                         pb.append('composition %s: non-finite amount' % c['name'])
                 except ValueError:
-                    pb.append('composition %s: amount %r is not a number' % (c['name'], val))
+                    if not re.match(r'^[-+]?(\d+\.?\d*|\.\d+)[-+]\d+$', val):      # Fortran form without the letter
+                        pb.append('composition %s: amount %r is not a number' % (c['name'], val))
             if 'density' in c:
                 try:
                     if not PH.match(c['density']) and not math.isfinite(float(c['density'])):
